@@ -185,7 +185,7 @@ impl Property for C16 {
             real: &["src/utils/bytes.rs (real atomics, real allocator calls)", "src/utils/string.rs", "serde visitors of SharedBytes/SharedString"],
             stub: &["OS scheduler (detsim; scheduling points in front of the refcount operations, hook H5)", "global allocator wrapped by an accounting layer (layout check on free, live blocks)"],
             assumptions: &["sequential consistency under engine A; memory-ordering mistakes are only visible to the Miri engine", "UTF-8 / Eq / Ord / Hash clauses are pure functions of generated data, exercised inside the simulated workload but not decided by scheduling"],
-            runs: (40_000, 2_000_000),
+            runs: (250_000, 8_000_000),
         }
     }
     fn generate(&self, g: &mut SplitMix, k: &mut SplitMix, _tier: Tier) -> (Knobs, Value) {
